@@ -14,6 +14,8 @@ RULE = (
     "section, retarget_to_proxy); per case every symbol of the module and every label defined by a patch is located "
     "in the rewritten module and compared with the position the listing semantics gives it; no symbol may refer to a "
     "block or proxy that is not part of the module"
+    "; modules that already hold a zero-sized labelled block at the address of the block behind it (left by an earlier rewrite): "
+    "the empty block, the block behind it or the code in front of it deleted, code or data inserted behind it"
 )
 ASSUMPTIONS = [
     "a label that stands exactly on a boundary where the layout inserts alignment padding may be printed on either side of the padding",
@@ -23,7 +25,33 @@ ASSUMPTIONS = [
 TRUSTED = ["harness/emodify.py, harness/irdump.py (referents are read through the ReferenceCache's tables, read-only)"]
 
 
+def empty_block_cases():
+    """a module that already holds a zero-sized labelled block (what an earlier rewrite leaves behind for a jump target it
+    could not remove) at the address of the block that follows it: deleting the empty block, the block behind it, or
+    the block in front of it"""
+    out = []
+    for follow in ("code", "data"):
+        for edit in ("empty", "behind", "front", "insert-behind"):
+            nxt = ({"kind": "code", "insns": [["nop"], ["ret"]], "syms": [{"name": "b2", "at_end": False}], "func": 0} if follow == "code"
+                   else {"kind": "data", "bytes": [1, 2, 3, 4], "syms": [{"name": "b2", "at_end": False}]})
+            text = [{"kind": "code", "insns": [["nop"], ["jmp", "b1"]], "syms": [{"name": "main", "at_end": False}], "func": 0, "entry": True},
+                    {"kind": "code", "insns": [], "syms": [{"name": "b1", "at_end": False}], "func": 0},
+                    nxt,
+                    {"kind": "code", "insns": [["ret"]], "syms": [{"name": "b3", "at_end": False}], "func": 0}]
+            e = {"empty": {"op": "delete", "block": 1, "off": 0, "len": 0},
+                 "behind": {"op": "delete", "block": 2, "off": 0, "len": 2 if follow == "code" else 4},
+                 "front": {"op": "delete", "block": 0, "off": 0, "len": 1},
+                 "insert-behind": {"op": "insert", "block": 2, "off": 0, "asm": "nop" if follow == "code" else ".byte 9"}}[edit]
+            out.append({"isa": "X64", "ff": "ELF", "externs": [], "text": text, "edits": [e]})
+    return out
+
+
 def run(ctx):
+    camp = LE.Campaign(ctx, "C02")
+    for case in empty_block_cases():
+        ctx.count("empty-block-in-the-input")
+        camp.add(case)
+    camp.flush()
     LE.run(ctx, "C02", 1500, 40000)
 
 
